@@ -159,7 +159,7 @@ func (a *AMF) buildDownlinkNASTransport(u *ue, nas []byte, opts uint32) ([]byte,
 	})
 	if opts&OptDLMobilityRestr != 0 {
 		add(ngapType.ProtocolIEIDMobilityRestrictionList, ignore, ngapType.DownlinkNASTransportIEsPresentMobilityRestrictionList, func(v *ngapType.DownlinkNASTransportIEsValue) {
-			v.MobilityRestrictionList = &ngapType.MobilityRestrictionList{ServingPLMN: plmnOS(a.plmn)}
+			v.MobilityRestrictionList = mobilityRestrictions(a.plmn, u.ch.ForbiddenTACs)
 		})
 	}
 	if opts&OptDLIndexToRFSP != 0 {
@@ -234,7 +234,7 @@ func (a *AMF) buildInitialContextSetupRequest(u *ue, nas []byte, opts uint32, se
 	})
 	if opts&OptICSMobilityRestr != 0 {
 		add(ngapType.ProtocolIEIDMobilityRestrictionList, ignore, ngapType.InitialContextSetupRequestIEsPresentMobilityRestrictionList, func(v *V) {
-			v.MobilityRestrictionList = &ngapType.MobilityRestrictionList{ServingPLMN: plmnOS(a.plmn)}
+			v.MobilityRestrictionList = mobilityRestrictions(a.plmn, u.ch.ForbiddenTACs)
 		})
 	}
 	if opts&OptICSIndexToRFSP != 0 {
@@ -408,4 +408,18 @@ func cxtReqItem(psi int, sst byte, sd []byte, transfer []byte) ngapTypeCxtReqIte
 	it.SNSSAI = ngapSNSSAI(sst, sd)
 	it.PDUSessionResourceSetupRequestTransfer = transfer
 	return it
+}
+
+
+// mobilityRestrictions: the serving PLMN and, optionally, n forbidden tracking areas of it.
+func mobilityRestrictions(plmn [3]byte, n int) *ngapType.MobilityRestrictionList {
+	m := &ngapType.MobilityRestrictionList{ServingPLMN: plmnOS(plmn)}
+	if n > 0 {
+		it := ngapType.ForbiddenAreaInformationItem{PLMNIdentity: plmnOS(plmn)}
+		for i := 0; i < n; i++ {
+			it.ForbiddenTACs.List = append(it.ForbiddenTACs.List, ngapType.TAC{Value: aper.OctetString{byte(i >> 16), byte(i >> 8), byte(i)}})
+		}
+		m.ForbiddenAreaInformation = &ngapType.ForbiddenAreaInformation{List: []ngapType.ForbiddenAreaInformationItem{it}}
+	}
+	return m
 }
